@@ -1487,6 +1487,12 @@ func (a *Authenticator) storeClientSession(negotiation *SecurityNegotiation, dur
 	// Create session entry with remote address (using sinful string)
 	entry := NewSessionEntry(negotiation.SessionId, serverAddr, keyInfo, policy, expiration, lease, a.config.SecurityTag)
 
+	// The session identifier is the server's choice. Whatever the cache already holds under
+	// it -- an entry, or command mappings created for another tag or another server -- is
+	// dropped first: otherwise the mappings of one (tag, server) would lead to the session
+	// just established with this one, and a later connection there would resume it.
+	cache.forget(negotiation.SessionId)
+
 	// Store in cache
 	cache.Store(entry)
 
